@@ -197,9 +197,12 @@ package app
 //@ ghost var rgApplied bool
 // The containment part (C07, C08): a file is opened only for a path that was checked for a NUL byte and - when a
 // path rewriter produced it, so that no normalisation vouches for it - for a "/../" segment. The compressed variant
-// is asked for only when the request has no Range header and accepts gzip. A range that does not parse is
+// is asked for - and the cache of compressed entries consulted or filled - only when the request has no Range header
+// and accepts gzip. A range that does not parse is
 // answered 416; the final status is 206 exactly when a range was applied, else 200.
 //@ immutable fsHandler.pathRewrite :: configuration copied from FS when the handler is built
+//@ immutable fsHandler.compressedCache :: the map object is created with the handler and never replaced
+//@ immutable fsHandler.cache :: the map object is created with the handler and never replaced
 //@ ghost var fsNulFree bool
 //@ ghost var fsRewritten bool
 //@ ghost var fsDotDotFree bool
@@ -228,6 +231,8 @@ package app
 //@   assert before openFSFile: fsNulFree && (fsRewritten ==> fsDotDotFree)
 //@   assert before openIndexFile: fsNulFree && (fsRewritten ==> fsDotDotFree)
 //@   assert @C08 before openFSFile: arg2 ==> fsNoRange && fsGzip
+//@   assert @C08 before maplookup: (fsNoRange && fsGzip) || arg0 == h.cache
+//@   assert @C08 before mapupdate: (fsNoRange && fsGzip) || arg0 == h.cache
 //@   ghostset after ParseByteRange: rgParsed = true
 //@   assert @C08 before RequestContext.AbortWithMsg: rgParsed && !rgOK ==> arg2 == 416
 //@   assert @C08 before RequestContext.SetStatusCode#1: (rgApplied ==> arg1 == 206) && (!rgApplied ==> arg1 == 200)
